@@ -967,7 +967,7 @@ func runC16() {
 	}
 	nShapes := 40
 	if *tier == "thorough" {
-		nShapes = 400
+		nShapes = 150
 	}
 	for _, t := range c16GenShapes(rng, nShapes) {
 		envs = append(envs, c16StructEnv(t, rng.Intn(2) == 0))
@@ -1003,7 +1003,7 @@ func runC16() {
 	cases := r.cases
 	maxAcc, absentPct := 5000, 15
 	if *tier == "thorough" {
-		maxAcc, absentPct = 60000, 100
+		maxAcc, absentPct = 24000, 30
 	}
 	var acc, rest []string
 	for _, c := range cases {
@@ -1022,7 +1022,7 @@ func runC16() {
 	}
 	cases = append(rest, acc...)
 	rep.Extra["coq_access_cases"] = len(acc)
-	if *shards > 8 {
+	if *shards > 8 && *tier != "thorough" {
 		*shards = 8
 	}
 	rep.Extra["environments"] = len(envs)
